@@ -9,6 +9,7 @@ Inductive ctlop :=
 Inductive case :=
 | CRoute (regs : list (string * nat)) (k : key) (out : option nat)
 | CMany (regs : list (string * nat)) (stores : list (nat * list (key * val))) (ks : list key) (out : list (option val))
+| CManyW (regs : list (string * nat)) (before : bstores) (dels : list key) (sets : list (key * val)) (after : bstores)
 | CDisabled (kind : ckind) (disabled : bool) (res : cres) (called raised : bool)
 | CDecor (full get_off set_off : bool) (calls execs : nat)
 | CCtl (all : list nat) (ops : list ctlop) (outs : list bool).
@@ -76,6 +77,19 @@ Definition judge (c : case) : verdict :=
       (list_eqb (option_eqb val_eqb) (facade_get_many rt (fun b l => map (store_get stores b) l) ks) out,
        list_eqb (option_eqb val_eqb)
          (map (fun k => store_get stores (match spec_route regs k with Some b => b | None => 0%nat end) k) ks) out, [])
+  | CManyW regs before dels sets after =>
+      let rt := rt_of regs in
+      let m := facade_set_many rt (facade_delete_many rt before dels) sets in
+      let ks := dels ++ map fst sets ++ flat_map (fun e => map fst (snd e)) before ++ flat_map (fun e => map fst (snd e)) after in
+      let bs := map snd regs in
+      let same (x y : bstores) := forallb (fun b => forallb (fun k => option_eqb val_eqb (kv_get (bs_get x b) k) (kv_get (bs_get y b) k)) ks) bs in
+      let srt k := match spec_route regs k with Some b => b | None => 0%nat end in
+      let expect b k := match kv_get sets k with
+                        | Some v => if Nat.eqb (srt k) b then Some v else kv_get (bs_get before b) k
+                        | None => if existsb (String.eqb k) dels && Nat.eqb (srt k) b then None else kv_get (bs_get before b) k
+                        end in
+      (same m after,
+       forallb (fun b => forallb (fun k => option_eqb val_eqb (expect b k) (kv_get (bs_get after b) k)) ks) bs, [])
   | CDisabled kind disabled res called raised =>
       let '(mres, mcalled) := middleware disabled kind in
       (cres_eqb mres res && Bool.eqb mcalled called && negb raised,
